@@ -207,7 +207,7 @@ fn cooperative_host(hc: PeerConn) {
     });
 }
 
-async fn http_get(path: &str) -> (Option<u16>, String, Option<String>) {
+pub async fn http_get(path: &str) -> (Option<u16>, String, Option<String>) {
     let conn = match world::connect_to_listener(
         METRICS.parse().unwrap(),
         "127.0.0.1:50123".parse().unwrap(),
